@@ -27,6 +27,7 @@ const unknownVersion = "Unknown Snoop Format Version"
 const unkownLinkType = "Unknown Link Type"
 const originalLenExceeded = "Capture length exceeds original packet length"
 const captureLenExceeded = "Capture length exceeds max capture length"
+const recordLenTooSmall = "Record length smaller than header plus capture length"
 
 type snoopHeader struct {
 	Version  uint32
@@ -127,7 +128,8 @@ func (r *SnoopReader) readPacketHeader() (ci gopacket.CaptureInfo, err error) {
 	ci.Timestamp = time.Unix(int64(binary.BigEndian.Uint32(r.buf[16:20])), int64(binary.BigEndian.Uint32(r.buf[20:24])*1000)).UTC()
 	ci.Length = int(binary.BigEndian.Uint32(r.buf[0:4]))
 	ci.CaptureLength = int(binary.BigEndian.Uint32(r.buf[4:8]))
-	r.pad = int(binary.BigEndian.Uint32(r.buf[8:12])) - (24 + ci.Length)
+	// the record holds the 24 header bytes, the included (captured) bytes and the pad
+	r.pad = int(binary.BigEndian.Uint32(r.buf[8:12])) - (24 + ci.CaptureLength)
 
 	if ci.CaptureLength > ci.Length {
 		err = errors.New(originalLenExceeded)
@@ -136,6 +138,11 @@ func (r *SnoopReader) readPacketHeader() (ci gopacket.CaptureInfo, err error) {
 
 	if ci.CaptureLength > maxCaptureLen {
 		err = errors.New(captureLenExceeded)
+		return
+	}
+
+	if r.pad < 0 {
+		err = errors.New(recordLenTooSmall)
 	}
 
 	return
@@ -146,9 +153,11 @@ func (r *SnoopReader) ReadPacketData() (data []byte, ci gopacket.CaptureInfo, er
 	if ci, err = r.readPacketHeader(); err != nil {
 		return
 	}
-	data = make([]byte, ci.CaptureLength+r.pad)
-	_, err = io.ReadFull(r.r, data)
-	return data[:ci.CaptureLength], ci, err
+	data = make([]byte, ci.CaptureLength)
+	if _, err = io.ReadFull(r.r, data); err != nil {
+		return data, ci, err
+	}
+	return data, ci, r.skipPad()
 
 }
 
@@ -162,9 +171,23 @@ func (r *SnoopReader) ZeroCopyReadPacketData() (data []byte, ci gopacket.Capture
 		return
 	}
 
-	if cap(r.packetBuf) < ci.CaptureLength+r.pad {
-		r.packetBuf = make([]byte, ci.CaptureLength+r.pad)
+	if cap(r.packetBuf) < ci.CaptureLength {
+		r.packetBuf = make([]byte, maxCaptureLen)
 	}
-	_, err = io.ReadFull(r.r, r.packetBuf[:ci.CaptureLength+r.pad])
-	return r.packetBuf[:ci.CaptureLength], ci, err
+	if _, err = io.ReadFull(r.r, r.packetBuf[:ci.CaptureLength]); err != nil {
+		return r.packetBuf[:ci.CaptureLength], ci, err
+	}
+	return r.packetBuf[:ci.CaptureLength], ci, r.skipPad()
+}
+
+// skipPad consumes the pad that follows the packet data without buffering it (the record length is not trusted)
+func (r *SnoopReader) skipPad() error {
+	if r.pad == 0 {
+		return nil
+	}
+	n, err := io.CopyN(io.Discard, r.r, int64(r.pad))
+	if err == io.EOF && n < int64(r.pad) {
+		return io.ErrUnexpectedEOF
+	}
+	return err
 }
